@@ -15,7 +15,7 @@ import warnings
 import numpy as np
 
 from sim.kernel import EventLog, PlanRng, Violation, call, sig
-from sim.seams import ScriptedGenerator, ambient_perturb, import_dreye
+from sim.seams import own_entropy, ScriptedGenerator, ambient_perturb, import_dreye
 
 ID = "C13"
 PANEL_PER_MODE = 2
@@ -343,6 +343,7 @@ def seed_kind(spec):
 
 def execute(plan):
     setup()
+    own_entropy(plan["run_seed"])
     log = EventLog()
     counters = {}
     cov = []
